@@ -175,7 +175,7 @@ def instances(ck):
                 kf=("vdw:length-1" if 1 in K else None))
     if not q:
         add("vdw-4-2_2_3_2", "vdw", {"N": 4, "K": [2, 2, 3, 2]}, lambda c: cnfgen.VanDerWaerden(4, 2, 2, 3, 2))
-        add("vdw-9-3_3", "vdw", {"N": 9, "K": [3, 3]}, lambda c: cnfgen.VanDerWaerden(9, 3, 3))
+        add("vdw-13-3_3", "vdw", {"N": 13, "K": [3, 3]}, lambda c: cnfgen.VanDerWaerden(13, 3, 3))
     for N in list(range(0, 14)) + ([] if q else [15, 17, 20]):
         add("ptn-%d" % N, "ptn", {"N": N}, lambda c, N=N: cnfgen.PythagoreanTriples(N, formula_class=c))
     return recs
